@@ -1322,12 +1322,11 @@ class FnLower:
         q = self.ast.fn_qname.get(d['id'], nm)
         if nm in ('forward', 'move') and q.startswith('ffsm2::'):
             return self.expr(n['inner'][1])
-        if nm == 'fill' and q == 'ffsm2::fill' and len(n['inner']) == 3:
+        if nm == 'fill' and q == 'ffsm2::fill' and len(n['inner']) == 3 and self._fill_is_memset_of_ref(d):
             # ffsm2::fill(T& a, char v) { memset(&a, v, sizeof(a)); }  -- sizeof of an array member whose extent is a
-            # symbolic constant is that constant times the element size (the instantiated sizeof is the witness's)
-            body = self.ast.body_of(self.ast.definition_of(d))
-            if body is None or len(body.get('inner', [])) != 1 or 'memset' not in str(body):
-                raise Unsupported('ffsm2::fill no longer is a single memset')
+            # symbolic constant is that constant times the element size (the instantiated sizeof is the witness's).
+            # Only this exact shape is treated as an intrinsic (checked on the AST above); anything else is lowered
+            # like any other function from its instantiated body.
             a = n['inner'][1]
             ea = self.expr(a)
             ev = self.expr(n['inner'][2])
@@ -1342,6 +1341,42 @@ class FnLower:
         cname = self.ctx.want_fn(d)
         dd = self.ast.definition_of(d)
         return self._wrap_call(dd, '%s(%s)' % (cname, ', '.join(self.lower_args(dd, n['inner'][1:]))))
+
+    def _fill_is_memset_of_ref(self, d):
+        """the callee is exactly  void fill(T& a, const char value) { memset(&a, static_cast<int>(value), sizeof(a)); }"""
+        dd = self.ast.definition_of(d)
+        body = self.ast.body_of(dd)
+        params = [c for c in dd.get('inner', []) if c.get('kind') == 'ParmVarDecl']
+        if body is None or len(params) != 2 or len(body.get('inner', [])) != 1:
+            return False
+        pt = params[0].get('type', {}).get('qualType', '')
+        is_lref = '&' in pt and '&&' not in pt       # clang prints a reference to array as 'T &[N]' here
+        if not is_lref:
+            return False                      # by value / rvalue reference: memset would clear a copy
+        call = body['inner'][0]
+        while call.get('kind') in ('ExprWithCleanups', 'ImplicitCastExpr', 'CStyleCastExpr') and call.get('inner'):
+            call = call['inner'][0]
+        if call.get('kind') != 'CallExpr' or len(call.get('inner', [])) != 4:
+            return False
+        def strip(x):
+            while x.get('kind') in ('ImplicitCastExpr', 'CXXStaticCastExpr', 'CStyleCastExpr', 'ParenExpr', 'CXXFunctionalCastExpr') and x.get('inner'):
+                x = x['inner'][0]
+            return x
+        def refs(x, p):
+            x = strip(x)
+            return x.get('kind') == 'DeclRefExpr' and x.get('referencedDecl', {}).get('id') == p['id']
+        fn = strip(call['inner'][0])
+        fname = fn.get('referencedDecl', {}).get('name') if fn.get('kind') == 'DeclRefExpr' else (fn.get('name') if fn.get('kind') == 'UnresolvedLookupExpr' else None)
+        if fname != 'memset':
+            return False
+        a0, a1, a2 = (strip(x) for x in call['inner'][1:])
+        if not (a0.get('kind') == 'UnaryOperator' and a0.get('opcode') == '&' and refs(a0['inner'][0], params[0])):
+            return False
+        if not refs(a1, params[1]):
+            return False
+        if not (a2.get('kind') == 'UnaryExprOrTypeTraitExpr' and a2.get('name') == 'sizeof' and a2.get('inner') and refs(a2['inner'][0], params[0])):
+            return False
+        return True
 
     # ---- construction
     def _ctor_of(self, n):
